@@ -255,7 +255,8 @@ Qed.
 
 Theorem glob_sq fuel loc cmd arg s : sq (fst (ec_glob rvalid rfind exec fuel loc cmd arg s)) = sq s.
 Proof.
-  unfold ec_glob. set (loc' := match loc, xgdep s with [], O => [37%N] | _, _ => loc end).
+  unfold ec_glob. destruct (GDEPMAX <=? xgdep s)%nat; [reflexivity|].
+  set (loc' := match loc, xgdep s with [], O => [37%N] | _, _ => loc end).
   sq_region loc' s. destruct (_ || _); [exact R|]. destruct (re_read arg) as [pat body].
   assert (K : sq (kwdset_if s1 pat 1) = sq s) by (unfold sq; rewrite kwdset_if_lb; exact R).
   destruct (kwddir _ =? 0)%Z; [exact K|]. destruct (negb _); [exact K|]. cbn [fst].
